@@ -41,9 +41,14 @@ def main():
         if changed:
             run.notes.append("source changed since the model was validated (" + ", ".join(changed) + "): extra passes")
             passes = int(os.environ.get("VERIF_EXTRA_PASSES", "1" if (a.tier != "quick" or a.prop == "C09") else "3"))
+            import time
+            budget = int(os.environ.get("VERIF_EXTRA_BUDGET_S", "240" if a.tier == "quick" else "1800"))
             for k in range(1, passes + 1):
                 if any(not f[4] for f in run.failures):
                     break               # a failing input that is not a known finding is already in hand
+                if time.time() - run.t0 > budget:
+                    run.notes.append(f"extra passes stopped after {k - 1} (time budget {budget} s)")
+                    break
                 run.pass_no = k
                 reg["run"](run, random.Random((seed + 7919 * k) * 1000003 + int(a.prop[1:])))
             run.pass_no = 0
